@@ -37,5 +37,7 @@ run C18 cubed/spec.py 'and self.allowed_mem == other.allowed_mem' 'and True' --o
 run C01 cubed/array_api/manipulation_functions.py 'start, stop = axis_len - stop, axis_len - start' 'start, stop = start, stop' --only ':flip'
 run C01 cubed/array_api/manipulation_functions.py 'bd if old > 1 else chunklen\(new\)' 'bd if old >= 1 else chunklen(new)' --only broadcast_to
 run C20 cubed/core/plan.py '    # args from primitive_op onwards are omitted' '    def __eq__(self, other):\n        return isinstance(other, Plan) and set(self.dag) == set(other.dag)\n\n    def __hash__(self):\n        return hash(self.array_names)\n\n    # args from primitive_op onwards are omitted' --only per-plan
+run C14 cubed/core/ops.py 'yield read_chunks, int_chunks' 'yield read_chunks, write_chunks' --only _rechunk_plan
+run C14 cubed/core/ops.py 'target_chunks_ = target_chunks if last_stage else write_chunks' 'target_chunks_ = write_chunks' --only _rechunk_plan
 echo "selected=$n"
 exit $fail
